@@ -1705,6 +1705,18 @@ struct const_subarray : array_types<T, D, ElementPtr, Layout> {
 	constexpr auto operator<=(const_subarray const& other) const& -> bool {return *this == other || lexicographical_compare(*this, other);}
 	constexpr auto operator> (const_subarray const& other) const& -> bool {return other < *this;}
 
+	// ordering against a view or array of the same dimensionality over another pointer (or element) type, e.g. the owning
+	// array that std::sort saves (value_type) against the proxy rows of a view over a fancy pointer
+	template<class TT, class... As, std::enable_if_t<! std::is_same_v<const_subarray, const_subarray<TT, D, As...>>, int> =0>  // NOLINT(modernize-use-constraints) TODO(correaa) for C++20
+	friend constexpr auto operator<(const_subarray const& self, const_subarray<TT, D, As...> const& other) -> bool {
+		if(self.extension().first() > other.extension().first()) {return true ;}
+		if(self.extension().first() < other.extension().first()) {return false;}
+		return adl_lexicographical_compare(
+			self.begin(), self.end(),
+			other.begin(), other.end()
+		);
+	}
+
 	template<class T2, class P2 = typename std::pointer_traits<element_ptr>::template rebind<T2>,
 		std::enable_if_t<  std::is_const_v<typename std::pointer_traits<P2>::element_type>,int> =0  // NOLINT(modernize-use-constraints) TODO(correaa)
 	>
@@ -3198,6 +3210,10 @@ struct const_subarray<T, 1, ElementPtr, Layout>  // NOLINT(fuchsia-multiple-inhe
 
 	friend constexpr auto operator<(const_subarray const& self, const_subarray const& other) -> bool { return lexicographical_compare_(self, other); }
 	friend constexpr auto operator>(const_subarray const& self, const_subarray const& other) -> bool { return lexicographical_compare_(other, self); }  // NOLINT(readability-suspicious-call-argument)
+
+	// ordering against a one-dimensional view or array over another pointer (or element) type
+	template<class TT, class EEPP, class LL, std::enable_if_t<! std::is_same_v<const_subarray, const_subarray<TT, 1, EEPP, LL>>, int> =0>  // NOLINT(modernize-use-constraints) TODO(correaa) for C++20
+	friend constexpr auto operator<(const_subarray const& self, const_subarray<TT, 1, EEPP, LL> const& other) -> bool { return lexicographical_compare_(self, other); }
 
 	friend constexpr auto operator<=(const_subarray const& self, const_subarray const& other) -> bool { return lexicographical_compare_(self, other) || self == other; }
 	friend constexpr auto operator>=(const_subarray const& self, const_subarray const& other) -> bool { return lexicographical_compare_(other, self) || self == other; }  // NOLINT(readability-suspicious-call-argument)
